@@ -63,6 +63,8 @@ def cases(tier, seed):
             yield {"kind": "bdvs", "dist": dist, "mean_var_batch_dim": dim, "seed": rnd.randrange(10**6)}
         for dist in ("CholeskyVariationalDistribution", "MeanFieldVariationalDistribution"):
             yield {"kind": "grid", "dist": dist, "seed": rnd.randrange(10**6)}
+            yield {"kind": "grid", "dist": dist, "dims": 2, "seed": rnd.randrange(10**6)}
+        yield {"kind": "grid", "dist": "MeanFieldVariationalDistribution", "dims": 3, "seed": rnd.randrange(10**6)}
         for kind, ti in itertools.product(["lmc", "indep"], [False, True]):
             yield {"kind": kind, "task_indices": ti, "seed": rnd.randrange(10**6)}
         for strat, dist in itertools.product(["VariationalStrategy", "UnwhitenedVariationalStrategy"], DISTS[:2] + DISTS[3:]):
@@ -580,6 +582,57 @@ def _orth(case, ctx, g):
     ctx.cell({k: v for k, v in case.items() if k != "seed"})
 
 
+def _grid_nd(case, ctx, g):
+    """grid-interpolation strategy on a grid of 2 / 3 dimensions with different bounds per dimension and an ARD kernel: the
+    variational parameter j belongs to the inducing point in row j of `inducing_points` - q(f) interpolates from THOSE
+    locations (weights computed from positions, whatever the order), and the prior of the KL term is the kernel at them"""
+    import torch
+
+    import gpytorch
+    from vf import util
+    from vf.oracle import interp as I
+
+    V = gpytorch.variational
+    dims, gs = case["dims"], 6 if case["dims"] == 2 else 5
+    bounds = [(-1.0, 1.0), (-2.0, 3.0), (0.0, 0.5)][:dims]
+    Mn = gs**dims
+
+    class Mdl(gpytorch.models.ApproximateGP):
+        def __init__(s):
+            vs = V.GridInterpolationVariationalStrategy(s, grid_size=gs, grid_bounds=bounds, variational_distribution=getattr(V, case["dist"])(Mn))
+            super().__init__(vs)
+            s.mean_module = gpytorch.means.ConstantMean()
+            s.covar_module = gpytorch.kernels.ScaleKernel(gpytorch.kernels.RBFKernel(ard_num_dims=dims))
+
+        def forward(s, x):
+            return gpytorch.distributions.MultivariateNormal(s.mean_module(x), s.covar_module(x))
+
+    m = Mdl()
+    util.randomize(m.covar_module, g, 0.5)
+    vs = m.variational_strategy
+    _randomize_vd(vs._variational_distribution, case["dist"], g)
+    vs.variational_params_initialized.fill_(1)
+    Z = vs.inducing_points.detach()
+    ctx.expect("grid_inducing_points_are_the_grid", Z.shape == (Mn, dims) and len({tuple(r) for r in Z.tolist()}) == Mn, f"inducing points {tuple(Z.shape)} are not the {Mn} distinct grid nodes")
+    lo, hi = torch.tensor([b_[0] for b_ in bounds]), torch.tensor([b_[1] for b_ in bounds])
+    X = lo + (hi - lo) * (0.25 + 0.5 * util.rand(g, 5, dims))
+    W = torch.ones(5, Mn)
+    for d_ in range(dims):
+        nodes = torch.unique(Z[:, d_])
+        W = W * I.keys((X[:, d_ : d_ + 1] - Z[:, d_].unsqueeze(0)) / (nodes[1] - nodes[0]))
+    m_par, S_par = _expected_qu(case["dist"], vs._variational_distribution)
+    with torch.no_grad():
+        m.eval()
+        out = m(X)
+        kl = vs.kl_divergence()
+        Kzz = m.covar_module(Z).to_dense() + 1e-3 * torch.eye(Mn)
+        mz = m.mean_module(Z)
+    ctx.close("grid_interp_qf", out.mean, W @ m_par, (1e-9, 1e-9), cls=f"grid{dims}d:mean")
+    ctx.close("grid_interp_qf", out.covariance_matrix, W @ S_par @ W.T, (1e-9, 1e-9), cls=f"grid{dims}d:cov")
+    ctx.close("kl_closed_form", kl, _kl(m_par, S_par, mz, Kzz), (1e-6, 1e-6), cls=f"grid{dims}d:kl", strategy="GridInterpolation", dist=case["dist"], mode="eval")
+    ctx.cell({k: v for k, v in case.items() if k != "seed"})
+
+
 def _grid(case, ctx, g):
     import torch
 
@@ -587,6 +640,8 @@ def _grid(case, ctx, g):
     from vf import util
 
     V = gpytorch.variational
+    if case.get("dims", 1) > 1:
+        return _grid_nd(case, ctx, g)
     gs = 10
 
     class Mdl(gpytorch.models.ApproximateGP):
